@@ -32,7 +32,8 @@ def _eng_nontrivial(line, verdict):
 
 _ENG_RULE = ("eng: structured rule sets (1-6 rules + markers, chains up to 4 links, keyed/regex-keyed/whole/count targets with "
              "string and regex exclusions over ARGS*/REQUEST_HEADERS*/TX/MATCHED_* and the request-line variables REQUEST_URI(_RAW)/"
-             "REQUEST_FILENAME/REQUEST_BASENAME/QUERY_STRING/REQUEST_LINE/METHOD/PROTOCOL fed by ProcessURI (35% of the cases: a path, often a "
+             "REQUEST_FILENAME/REQUEST_BASENAME/QUERY_STRING/REQUEST_LINE/METHOD/PROTOCOL, REQUEST_COOKIES(_NAMES) from Cookie headers and "
+             "RESPONSE_HEADERS(_NAMES); the request line fed by ProcessURI (35% of the cases: a path, often a "
              "query whose arguments join ARGS_GET, sometimes a fragment) (27 key expressions incl. upper case, "
              "classes, \\D \\W \\b, (?i), alternation, counted repetition), 15 operators (incl. @rx over the regex model and @ipMatch) with literal and macro arguments, "
              "transformation lists, multiMatch, setvar/ctl actions, all disruptive actions, skip/skipAfter, severity, tags) "
